@@ -343,11 +343,13 @@ def check_voxels(case, ctx):
         cont = build.container(multi.SurfaceContainer if obj.pdimension == 2 else multi.VolumeContainer, [obj, obj2], case["n"] // 3)
         cgrid, cfilled = voxelize.voxelize(cont, grid_size=tuple(case["grid"]), use_cubes=case["cubes"], **kw)
         ctx.label("container-of-two")
-        ctx.check(len(cgrid) == len(cfilled) and len(cgrid) == 2 * len(grid), "voxel-counts", "container of two: %d voxels, %d flags; one member alone has %d voxels" % (len(cgrid), len(cfilled), len(grid)))
+        g2, f2 = voxelize.voxelize(obj2, grid_size=tuple(case["grid"]), use_cubes=case["cubes"], **kw)
+        # (the number of voxels a member gets is the library's business - far from the origin a grid line more or less can
+        # come out of the accumulated steps; the container must report exactly what each member gets on its own)
+        ctx.check(len(cgrid) == len(cfilled) and len(cgrid) == len(grid) + len(g2), "voxel-counts", "container of two: %d voxels, %d flags; the members alone have %d and %d voxels" % (len(cgrid), len(cfilled), len(grid), len(g2)))
         half = len(grid)
         ctx.check([list(map(list, v)) for v in cgrid[:half]] == [list(map(list, v)) for v in grid] and list(cfilled[:half]) == list(filled), "container-member-voxels",
                   "the first member's part of the container result differs from voxelising that member alone (%d vs %d filled)" % (sum(cfilled[:half]), sum(filled)))
-        g2, f2 = voxelize.voxelize(obj2, grid_size=tuple(case["grid"]), use_cubes=case["cubes"], **kw)
         ctx.check([list(map(list, v)) for v in cgrid[half:]] == [list(map(list, v)) for v in g2] and list(cfilled[half:]) == list(f2), "container-member-voxels",
                   "the second member's part of the container result differs from voxelising that member alone (%d vs %d filled)" % (sum(cfilled[half:]), sum(f2)))
     if case["n"] % 3 == 1:
